@@ -322,7 +322,7 @@ pub fn property() -> Property {
             name: "keys",
             rule: "one template holding every documented key (26 plain, 5 with width/alignment, wide_msg, bar, wide_bar) and a stateful custom tracker; 0-16 (thorough 40) ops (inc/dec/set_position/update/set_length/unset_length/inc_length/set_message/set_prefix/tick/reset/reset_eta/finish/finish_with_message/abandon) with gaps 2 ms..55 h on the virtual clock; after every op a forced draw is compared field by field with the getters pushed through the public formatters; non-trivial = position/length/message differ from creation",
             strategy: case_strategy,
-            cases: |t| t.pick(2_500, 120_000),
+            cases: |t| t.pick(2_500, 480_000),
             run: run_keys,
             signature: no_signature,
             essential: &["state_changed_before_draw", "unknown_length", "len_lt_pos", "finished", "eta_nonzero", "rate_nonzero", "elapsed_hours", "reset"],
